@@ -382,6 +382,7 @@ func cntAuditScenario(scn string, seed uint64, ct content.Type, v pdf.Version) (
 }
 
 func replayCNTAudit(input string) (bool, string) {
+	cntWireSetup()
 	var scn string
 	var seed uint64
 	var ct, v int
@@ -396,6 +397,7 @@ func replayCNTAudit(input string) (bool, string) {
 }
 
 func runCNTAudit(c *Ctx) {
+	cntWireSetup()
 	r := c.R
 	n := 1500
 	if c.Thorough {
